@@ -47,8 +47,16 @@ func GensignConfig(c Conf) (*config.GensignConfig, string, error) {
 	if err != nil {
 		return nil, "", err
 	}
-	gc := new(config.GensignConfig)
-	if err := json.Unmarshal(b, gc); err != nil {
+	// through the same loader the gensign binary uses (file on disk)
+	f, err := os.CreateTemp("", "gensign-*.json")
+	if err != nil {
+		return nil, string(b), err
+	}
+	defer os.Remove(f.Name())
+	f.Write(b)
+	f.Close()
+	gc, err := config.NewGensignConfig(f.Name())
+	if err != nil {
 		return nil, string(b), err
 	}
 	return gc, string(b), nil
